@@ -77,6 +77,7 @@ def extract_consts():
     c.update(extract_splice())
     c.update(extract_ready())
     c.update(extract_loops())
+    c.update(extract_writev())
     c["direct"] = int(one(r"\n\tOutboundDirect\s+OutboundIndex\s*=\s*(0x[0-9a-fA-F]+|\d+)\n", gen, "OutboundDirect").group(1), 0)
     c["block"] = int(one(r"\n\tOutboundBlock\s+OutboundIndex\s*=\s*(0x[0-9a-fA-F]+|\d+)\n", gen, "OutboundBlock").group(1), 0)
     return c
@@ -136,6 +137,28 @@ def extract_loops():
             raise AnchorMoved(fn + ": the write is not guarded by nr > 0")
         res[key] = w < e
     return res
+
+
+def extract_writev():
+    """relayWritevAll: what the loop hands to relayAdvanceSegments - this call's byte count applied to the remaining
+    list (`segments = relayAdvanceSegments(segments, n)`) or something else"""
+    src = _read("control/tcp_copy_gather_linux.go")
+    m = re.search(r"\nfunc relayWritevAll\([^\n]*\{\n(.*?)\n\}\n", src, re.S)
+    if not m:
+        raise AnchorMoved("relayWritevAll signature")
+    body = re.sub(r"//[^\n]*", "", m.group(1))
+    calls = re.findall(r"(\w+)\s*:?=\s*relayAdvanceSegments\((\w+),\s*(\w+)\)", body)
+    if len(calls) != 1 or body.count("relayAdvanceSegments(") != 1 or body.count("relayWritevFunc(") != 1:
+        raise AnchorMoved("relayWritevAll: calls of relayAdvanceSegments / relayWritevFunc")
+    lhs, arg_list, arg_n = calls[0]
+    per_call = (lhs == "segments" and arg_list == "segments" and arg_n == "n"
+                and bool(re.search(r"n, err := relayWritevFunc\(int\(fd\), segments\)", body)))
+    if not per_call and arg_n not in ("written",):
+        raise AnchorMoved("relayWritevAll: unknown advance scheme %r" % (calls[0],))
+    adv = re.search(r"\nfunc relayAdvanceSegments\([^\n]*\{\n(.*?)\n\}\n", src, re.S)
+    if not adv or "segs[0] = segs[0][n:]" not in adv.group(1) or "segs = segs[1:]" not in adv.group(1):
+        raise AnchorMoved("relayAdvanceSegments shape")
+    return {"wv_per_call": per_call}
 
 
 def _blocks(txt):
@@ -237,13 +260,14 @@ def write_gen(c):
            "Definition c05_ready_closes_ok : N := %d.\nDefinition c05_ready_closes_timeout : N := %d.\nDefinition c05_ready_closes_err : N := %d.\n"
            "Definition c05_derr_set_ok : bool := %s.\nDefinition c05_derr_set_timeout : bool := %s.\nDefinition c05_derr_set_err : bool := %s.\n"
            "Definition c05_loop_write_first : bool := %s.\nDefinition c05_direct_write_first : bool := %s.\n"
+           "Definition c05_writev_advance_per_call : bool := %s.\n"
            % (c["dns_first"], c["half_close"], c["prefetch"], c["relay_buf"], c["bufio_size"],
               "; ".join(str(x) for x in c["excluded"]),
               "; ".join("[" + ";".join(str(ord(ch)) for ch in p) + "]" for p in c["http"]),
               c["direct"], c["block"],
               vlib.cbool(c["sp_fill"]), vlib.cbool(c["sp_drain"]), vlib.cbool(c["sp_err"]), vlib.cbool(c["sp_short"]), c["sp_limit"],
               c["rd_ok"][0], c["rd_timeout"][0], c["rd_err"][0], vlib.cbool(c["rd_ok"][1]), vlib.cbool(c["rd_timeout"][1]), vlib.cbool(c["rd_err"][1]),
-              vlib.cbool(c["loop_wf"]), vlib.cbool(c["direct_wf"])))
+              vlib.cbool(c["loop_wf"]), vlib.cbool(c["direct_wf"]), vlib.cbool(c["wv_per_call"])))
     vlib.write_if_changed(os.path.join(vlib.COQ, "gen", "C05_Extracted.v"), txt)
 
 
@@ -580,6 +604,33 @@ def tcp_gate_family(tier):
     return out
 
 
+def gen_writev_cases(rng, tier):
+    """gather write: the real relayWritevAll over a scripted writev - partial acceptances inside a segment and on
+    boundaries, EAGAIN (the poller re-enters the callback), EINTR, zero-length writes - over generated segment lists"""
+    out = [{"kind": "writev", "segs": [b"PREFIX--".hex(), b"0123456789abcdefghijklmnopqrstuvwxyz".hex()],
+            "script": [{"n": 13, "e": ""}, {"n": 0, "e": "EAGAIN"}], "flight": "writev_demo"}]
+    for _ in range(24 if tier == "quick" else 400):
+        segs = [bytes(rng.randrange(256) for _ in range(rng.choice([0, 1, 2, 3, 8, 16, 36, 100]))) for _ in range(rng.choice([1, 2, 2, 3, 4, 9]))]
+        total = sum(len(x) for x in segs)
+        bounds, acc = [], 0
+        for x in segs:
+            acc += len(x)
+            bounds.append(acc)
+        script, left = [], total
+        for _ in range(rng.choice([1, 2, 3, 5, 8])):
+            r = rng.random()
+            if r < 0.25:
+                script.append({"n": 0, "e": rng.choice(["EAGAIN", "EAGAIN", "EINTR"])})
+            elif r < 0.30:
+                script.append({"n": 0, "e": ""})
+            else:
+                n = rng.choice([1, 2, 3, rng.randint(1, max(1, left)), max(1, left // 2)] + [b for b in bounds if b > 0][:2])
+                script.append({"n": n, "e": ""})
+                left = max(0, left - n)
+        out.append({"kind": "writev", "segs": [x.hex() for x in segs], "script": script, "flight": "writev"})
+    return out
+
+
 SPLICE_MODES = [("partial", 1), ("partial", 2), ("record", 1), ("record", 3), ("blocked", 0), ("upstream_close", 0), ("clean", 0), ("partial", 3)]
 
 
@@ -601,6 +652,8 @@ def gen_splice_cases(rng, tier):
 
 
 def to_harness(case):
+    if case["kind"] == "writev":
+        return {"kind": "writev", "segs": case["segs"], "script": case["script"]}
     if case["kind"] == "splice":
         return {"kind": "splice", "upload": pat_bytes(*case["upload"]).hex(), "mode": case["mode"], "cancel_at": case["cancel_at"],
                 "pool_seed": case["pool_seed"], "concurrent": case["concurrent"], "wait_scale": case.get("wait_scale", 1),
@@ -814,8 +867,11 @@ def run_batch(sc, binary, cases, tag):
         return None, None, None, herr
     flat = []
     sflat = []
+    wflat = []
     for i, (c, r) in enumerate(zip(cases, results)):
-        if c["kind"] == "splice":
+        if c["kind"] == "writev":
+            wflat.append((i, c, r))
+        elif c["kind"] == "splice":
             sflat.append((i, c, r))
         elif c["kind"] == "multi" and "multi" not in r:
             r["_sub_codes"] = {"0": [99]}
@@ -837,6 +893,18 @@ def run_batch(sc, binary, cases, tag):
     terms, defs, owners = [], [], []
     sterms, sowners = [], []
     rterms, rowners = [], []
+    wterms, wowners = [], []
+    for i, c, r in wflat:
+        if r.get("panic") or r.get("hang"):
+            add(i, 0, [99])
+            continue
+        calls = []
+        for st in c["script"]:
+            calls.append("WAgain" if st["e"] == "EAGAIN" else "WIntr" if st["e"] == "EINTR" else "(WAccept (N.to_nat %d))" % min(st["n"], 100000))
+        calls.append("(WAccept (N.to_nat %d))" % (sum(len(x) // 2 for x in c["segs"]) + 1))
+        wterms.append("([%s], [%s], %s, %d, %s)" % ("; ".join(cbytes(bytes.fromhex(x)) for x in c["segs"]), "; ".join(calls),
+                                                   cbytes_big(bytes.fromhex(r["wire"])), r["written"], vlib.cbool(r["err"] == "nil")))
+        wowners.append(i)
     for i, c, r in sflat:
         if r.get("panic") or r.get("hang"):
             add(i, 0, [99])
@@ -866,7 +934,7 @@ def run_batch(sc, binary, cases, tag):
         for sname in ("client", "server"):
             for ch in c[sname]["chunks"]:
                 ch.pop("_name", None)
-    text = ("From Coq Require Import List NArith ZArith Bool.\nFrom Dae Require Import C05_Spec C05_Model C05_SpliceModel C05_Check.\n"
+    text = ("From Coq Require Import List NArith ZArith Bool.\nFrom Dae Require Import C05_Spec C05_Model C05_SpliceModel C05_WritevModel C05_Check.\n"
             "From Dae.gen Require Import C05_Extracted.\nImport ListNotations.\nOpen Scope N_scope.\n"
             + "\n".join(defs) + "\n"
             + "".join("Definition case_%d : obs := %s.\n" % (n, t) for n, t in terms) +
@@ -874,6 +942,7 @@ def run_batch(sc, binary, cases, tag):
             "Definition R := Eval vm_compute in map check_case cases.\nPrint R.\n"
             + "".join("Definition scase_%d : sobs := %s.\n" % (n, t) for n, t in enumerate(sterms)) +
             "Definition RS := Eval vm_compute in map check_splice [" + "; ".join("scase_%d" % n for n in range(len(sterms))) + "].\nPrint RS.\n"
+            "Definition RW := Eval vm_compute in map check_writev [" + "; ".join(wterms) + "].\nPrint RW.\n"
             "Definition RB := Eval vm_compute in map check_reset [" + "; ".join(rterms) + "].\nPrint RB.\n")
     ok, outtxt = vlib.coq_eval("C05_cases_%s" % tag, text, timeout=3000)
     if not ok:
@@ -889,6 +958,15 @@ def run_batch(sc, binary, cases, tag):
     if len(sper) != len(sterms):
         return None, None, None, "cannot parse coq output for the splice scenarios (%d vs %d): %s" % (len(sper), len(sterms), sbody[:300])
     for i, p_ in zip(sowners, sper):
+        codes = [int(x) for x in p_.split(";") if x]
+        if codes:
+            add(i, 0, codes)
+    mw = re.search(r"(?m)^RW\s*=\s*(.*?)\n\s*:\s*list", outtxt, re.S)
+    wbody = re.sub(r"\s+", "", mw.group(1)) if mw else "[]"
+    wper = re.findall(r"\[([\d;]*)\]", wbody[1:-1]) if wterms else []
+    if len(wper) != len(wterms):
+        return None, None, None, "cannot parse coq output for the writev cases (%d vs %d): %s" % (len(wper), len(wterms), wbody[:300])
+    for i, p_ in zip(wowners, wper):
         codes = [int(x) for x in p_.split(";") if x]
         if codes:
             add(i, 0, codes)
@@ -983,6 +1061,8 @@ GRACE_MS = [10000]
 
 def matcher_of(case, res, codes):
     """class of a failing input, computed from the input and what the implementation did with it"""
+    if case["kind"] == "writev":
+        return "gather-write-loses-bytes-after-partial-writev" if 21 in codes else "writev-other-" + "-".join(str(c) for c in sorted(set(codes)))
     if case["kind"] == "splice":
         if 99 in codes:
             return "harness-panic-or-hang"
@@ -1039,6 +1119,8 @@ def shrink(sc, binary, case, want, rounds=2):
     """greedy, batched: every round evaluates single-step reductions (strongest first) in ONE harness + coqc run
     and keeps the first that still fails in the same class.  Returns (case, codes, observation) or None."""
     cur, best = json.loads(json.dumps(case)), None
+    if case["kind"] == "writev":
+        return None
     if case["kind"] == "splice":
         # one later connection with tiny payloads is the smallest interesting history
         c2 = json.loads(json.dumps(case))
@@ -1184,7 +1266,7 @@ def main(argv):
             for n in sorted(os.listdir(cdir)):
                 corpus.append(json.load(open(os.path.join(cdir, n))))
         cases = (corpus + fin_family() + sniff_pause_family() + grace_family(consts["half_close"]) + [gen_case(rng, args.tier) for _ in range(n_mem)] + [gen_multi_case(rng, args.tier) for _ in range(n_multi)]
-                 + tcp_gate_family(args.tier) + [gen_tcp_case(rng, args.tier) for _ in range(n_tcp)] + gen_splice_cases(rng, args.tier))
+                 + tcp_gate_family(args.tier) + [gen_tcp_case(rng, args.tier) for _ in range(n_tcp)] + gen_splice_cases(rng, args.tier) + gen_writev_cases(rng, args.tier))
         all_err, sigs, all_res = {}, [], {}
         tie_broken = None
         shard = 150
@@ -1284,17 +1366,18 @@ def main(argv):
         distinct = len(set(sigs))
         nontrivial = len(set(s for s in sigs if s[0] not in ("0", "8") or s[3] != "0"))
         sample = next((c for c in cases[len(corpus):] if c["kind"] == "mem"), cases[0])
-        n_conn = sum(len(c["conns"]) if c["kind"] == "multi" else (1 + len(c["later"]) if c["kind"] == "splice" else 1) for c in cases)
+        n_conn = sum(len(c["conns"]) if c["kind"] == "multi" else (1 + len(c["later"]) if c["kind"] == "splice" else (0 if c["kind"] == "writev" else 1)) for c in cases)
         n_splice_skipped = len([1 for i, c in enumerate(cases) if c["kind"] == "splice" and all_res.get(i, {}).get("_skipped")])
         flights = {}
         for c in cases:
             flights[c.get("flight", "?")] = flights.get(c.get("flight", "?"), 0) + 1
         cov.update(evaluations=n_eval, distinct_nontrivial=nontrivial, distinct_signatures=distinct,
-                   rule="random connection scripts: first flight (none/HTTP variants/TLS full+partial/SSH/binary/port-53 frames: short, garbage, DNS response, oversized, incomplete) segmented at 1,2,15,16,17,half,len-1 with gaps around the sniff (1 s) and DNS (5 s) windows +-20 ms, follow-up payloads incl. 4095-4097 and 32767-32769 bytes, both orders of the two ends of stream, server data around client-EOF + grace +-10 ms, ports 53/22/3306 (excluded) and 80/443/8080, outbounds direct/block/user, dial mode ip; splice-pool scenarios on real sockets (back-pressured upload ended at each exit of relaySpliceCopyExact - ctx at the loop top after the n-th partial / n-th drain, cancelled while blocked, upstream reset, clean EOF - then 1-3 healthy connections reusing the pooled pipes; pool fill levels observed); real-socket gate family (bufio/prefixed/sniffer stacks, the client's next segment pending in the socket when the relay starts, sizes around 4096 and 32768); final-read family (a side's last bytes returned in the same Read as io.EOF or as a reset, every stack, either side and both); sniff-pause family (sniffing window expires on an incomplete TLS record / HTTP head, the rest arrives 20 ms or 5 s later); fixed half-close family (first half-close at relay age 0.5/1/1.5/3 x grace, remaining bytes of the other direction half a grace later, every wrapper stack, either side first); overlapping-connection scenarios (2-4 connections over the shared buffer pools on one P: each prologue runs while others are parked between prologue and relay, random valid orders, every connection judged on its own bytes); "
+                   rule="random connection scripts: first flight (none/HTTP variants/TLS full+partial/SSH/binary/port-53 frames: short, garbage, DNS response, oversized, incomplete) segmented at 1,2,15,16,17,half,len-1 with gaps around the sniff (1 s) and DNS (5 s) windows +-20 ms, follow-up payloads incl. 4095-4097 and 32767-32769 bytes, both orders of the two ends of stream, server data around client-EOF + grace +-10 ms, ports 53/22/3306 (excluded) and 80/443/8080, outbounds direct/block/user, dial mode ip; splice-pool scenarios on real sockets (back-pressured upload ended at each exit of relaySpliceCopyExact - ctx at the loop top after the n-th partial / n-th drain, cancelled while blocked, upstream reset, clean EOF - then 1-3 healthy connections reusing the pooled pipes; pool fill levels observed); real-socket gate family (bufio/prefixed/sniffer stacks, the client's next segment pending in the socket when the relay starts, sizes around 4096 and 32768); gather-write scripts (the real relayWritevAll over a scripted writev: partial acceptances inside segments and on boundaries, EAGAIN with callback re-entry, EINTR, zero-length writes); final-read family (a side's last bytes returned in the same Read as io.EOF or as a reset, every stack, either side and both); sniff-pause family (sniffing window expires on an incomplete TLS record / HTTP head, the rest arrives 20 ms or 5 s later); fixed half-close family (first half-close at relay age 0.5/1/1.5/3 x grace, remaining bytes of the other direction half a grace later, every wrapper stack, either side first); overlapping-connection scenarios (2-4 connections over the shared buffer pools on one P: each prologue runs while others are parked between prologue and relay, random valid orders, every connection judged on its own bytes); "
                         "signature = (stack at relay start x holds-bytes, detection stages run, ending alive/error/clean, order of the ends of stream, stale-deadline/sticky-error/spin bits); non-trivial = a wrapper on the stack or at least one end of stream",
                    traces_validated_against_impl=sum((len(c["conns"]) if c["kind"] == "multi" else 1) for i, c in enumerate(cases)
                                                      if c["kind"] in ("mem", "multi") and not is_model_fail(all_err.get(i, []))),
                    connections_run=n_conn,
+                   gather_write_scripts=len([1 for c in cases if c["kind"] == "writev"]),
                    splice_pool_scenarios=len([1 for c in cases if c["kind"] == "splice"]), splice_pool_scenarios_skipped=n_splice_skipped,
                    retried_and_passed=retried_passed, retried_and_still_failing=retried_failed,
                    real_time_policy="verdicts of the in-memory cases use the virtual clock only; harness watchdogs (30-120 s) and real-socket cases are retried x3 with patience x4/x16 before a failure is reported; a persistent hang carries a goroutine dump",
